@@ -173,7 +173,9 @@ class P(Prop):
                     f = comp.get_shaft_power_load_from_electric_power if d == 0 else comp.get_electric_power_load_from_shaft_power
                 else:
                     f = comp.get_power_input_from_bidirectional_output if d == 0 else comp.get_power_output_from_bidirectional_input
-                ser, _ = f(xs.copy())
+                arg = xs.copy()
+                ser, _ = f(arg)
+                out["series_input_unchanged"] = bool(np.array_equal(arg, xs))
                 one = [float(np.atleast_1d(np.asarray(f(float(x))[0], dtype=float))[0]) for x in xs]
                 out["series"] = [float(v) for v in np.atleast_1d(ser)]
                 out["one_by_one"] = one
@@ -245,6 +247,8 @@ class P(Prop):
                     prod = float(np.prod(se))
                     if abs(e - prod) > 1e-9:
                         return f"serial system at load {float(l)}: efficiency {e}, product of the stage efficiencies at their own loads {prod}"
+        if obs.get("series_input_unchanged") is False:
+            return "converting a power series changed the caller's array in place"
         if "series" in obs:
             for s, o in zip(obs["series"], obs["one_by_one"]):
                 if abs(s - o) > 1e-9 * max(1.0, abs(o)):
